@@ -15,6 +15,19 @@ CLAIMED["C01"] = ("exploration",
    "Trusts internal/bpfvm (cross-validated against the running kernel on every sampled number), the uapi header numbering, and that the partition argument holds only while the program consists of LD abs/JEQ/JGE/JGT/RET (the check classifies each program and reports it). Foreign-ABI behaviour is decided on filter semantics, not at the kernel.",
    "property-based testing (rapid) with a reference interpreter + kernel differential", "§3 C01")
 
+CLAIMED["C02"] = ("exploration",
+   "Generated symlink forests and model-guided pathname strings are pushed through 26 traced path syscalls of a real ptrace.Runner run (scripted freestanding tracee); every call under test is banned so the forest is immutable, and the path/class the policy was shown is compared with the kernel's own O_PATH resolution of the same (base directory, pathname) computed by the harness. Exploration is the right level: the input space (forests x strings x encodings) is unbounded and the oracle is the kernel itself.",
+   "Trusts the kernel resolver as oracle; /proc/self|thread-self/{cwd,root,fd/N} prefixes are substituted textually by the (canonical) directory they denote. Calls whose intermediate components do not resolve, and final symlinks under no-follow calls, are counted but not judged.",
+   "property-based testing (rapid) with a differential oracle (kernel path resolution)", "§3 C02")
+CLAIMED["C03"] = ("exploration",
+   "Generated program trees (fork/vfork/thread to depth 3) of traced side-effecting calls on unique markers run under the real ptrace.Runner with a generated decision function marker->{allow,ban,kill}; the program's own report of return values, the file-system effects after the run, the handler log and Result.Status are compared with a small model (ban: -BanRet and no effect; kill: no effect, Disallowed Syscall; allow: real result and effect; every task's traced calls are decided by the handler).",
+   "Verdict of runs where a kill happens in a process main does not wait for is only required to be Disallowed Syscall or the program's own ending (timing-dependent). Scheduling between tasks is the OS's; not enumerated.",
+   "property-based testing (rapid), probe self-report + side-effect oracle", "§3 C03")
+CLAIMED["C15"] = ("exploration",
+   "Generated hostile scripts (bad/odd pointers, unterminated and PATH_MAX-sized strings, strings at page ends, 64-bit garbage in int registers, unreadable open_how, unknown/negative/x32 syscall numbers, thread/child death races, vfork and thread storms, self-stop signals, orphans) run under the real ptrace.Runner with a recording handler and with the real filehandler; the result must be one of the seven program verdicts, consistent with the program's own ending for single-task scripts, never Runner Error or panic text, and the run must return within 15 s.",
+   "Death races are sampled, not enumerated: the harness cannot pin the scheduler between wait4 and the tracer's ptrace request. A program that stops itself and stays stopped is not judged as a hang.",
+   "property-based testing / grammar-based fuzzing of tracee programs (rapid)", "§3 C15")
+
 NOT_YET = {}
 
 def main():
